@@ -16,6 +16,14 @@ Definition refresh_step : state * list node -> node -> state * list node :=
 Definition xref (s : state) (l : list node) (xe : xenv) : xenv :=
   fold_left (fun xe e => fun k => if (k =? nidx e)%N then Some (world_get s (nidx e)) else xe k) l xe.
 
+Lemma sess_fold_log : forall sets cur rs batch cur' rs' batch',
+  fold_left fsess_step sets (cur, rs, batch) = (cur', rs', batch') -> s_log cur' = s_log cur.
+Proof.
+  induction sets as [|[v x] r IH]; intros cur rs batch cur' rs' batch' H; cbn [fold_left] in H.
+  - inversion H. reflexivity.
+  - rewrite fsess_step_eq in H. apply IH in H. rewrite H. apply set_input_log.
+Qed.
+
 Section Commit.
 Variable p : program.
 Variable rk : node -> nat.
